@@ -326,7 +326,7 @@ Proof.
 Qed.
 
 Lemma consume_spec S r amt :
-  Inv S r -> nlen (r_buf r) + amt <= usizemax ->
+  Inv S r -> r_pos r + amt <= usizemax ->
   exists r', consume r amt = Ok r' /\ Inv S r' /\
              stream_pos r' = stream_pos r + N.min amt (r_cap r - r_pos r) /\
              r_cap r' - r_pos r' = (r_cap r - r_pos r) - N.min amt (r_cap r - r_pos r) /\
@@ -355,7 +355,7 @@ Proof.
   destruct (consume_spec S r1 (nlen bs) HI1 ltac:(lia)) as [r2 [E2 [HI2 [Hsp2 [Hib2 [Hl2 Hb2]]]]]].
   rewrite E2. cbn [bind]. exists bs, r2. split; [reflexivity|]. split; [exact HI2|].
   split; [|split; [|split; [|split; [|split]]]].
-  - unfold bs at 2. rewrite Hw, ntake_ntake, <- Hsp. f_equal. lia.
+  - rewrite Hbl. unfold bs. rewrite Hw, ntake_ntake, Hsp. reflexivity.
   - lia.
   - lia.
   - rewrite Hbl. destruct Hla as [Hla|Hla].
@@ -382,7 +382,7 @@ Proof.
                           (r_cap r <> 0 -> r1 = r)).
   { destruct (r_cap r =? 0) eqn:E0.
     - apply N.eqb_eq in E0. destruct (fill_buf_spec S r HI) as [r1 [E1 [HI1 [Hsp [_ [_ [Hl1 Hb1]]]]]]].
-      exists r1. split; [exact E1|]. repeat split; auto. intros H. lia.
+      exists r1. split; [exact E1|]. split; [exact HI1|]. repeat split; auto. intros H. lia.
     - exists r. split; [reflexivity|]. split; [exact HI|]. repeat split; auto. }
   destruct H1 as [r1 [E1 [HI1 [Hsp [Hl1 [Hb1 Hsame]]]]]]. rewrite E1. cbn [bind].
   pose proof HI1 as HI1'. destruct HI1' as [Hp Hc Hl Hr Hu HS He Hb Hre Hel].
@@ -437,7 +437,7 @@ Proof.
     pose proof (inv_end S r1 HI1). pose proof (inv_pos S r1 HI1). unfold stream_pos in *. lia.
   - (* consume *)
     cbn [op_wf] in Hwf.
-    destruct (consume_spec S r n HI Hwf) as [r1 [E1 [HI1 [Hsp [Hib [Hl1 Hb1]]]]]].
+    destruct (consume_spec S r n HI ltac:(pose proof (inv_pos S r HI); pose proof (inv_cap S r HI); lia)) as [r1 [E1 [HI1 [Hsp [Hib [Hl1 Hb1]]]]]].
     rewrite E1. cbn [bind]. exists RUnit, r1. split; [reflexivity|]. split; [exact HI1|]. split; [exact Hl1|]. split; [exact Hb1|].
     cbn zeta. unfold ev_ok, next_pos. cbn [e_op e_out e_win].
     split; [|exact Hsp]. split; [rewrite <- Hsp; apply window_slice; exact HI1|].
@@ -482,13 +482,170 @@ Lemma run_spec S : forall ops r,
                  map e_op evs = ops.
 Proof.
   induction ops as [|o ops IH]; intros r HI Hwf.
-  - exists [], r. cbn. repeat split; auto.
+  - exists [], r. cbn. split; [reflexivity|]. split; [exact HI|]. repeat split; auto.
   - inversion Hwf as [|? ? Hwo Hwops]; subst.
     destruct (step_spec S r o HI Hwo) as [x [r1 [E1 [HI1 [Hl1 [Hb1 [Hev Hsp]]]]]]].
     cbn zeta in Hev, Hsp.
     destruct (IH r1 HI1 ltac:(rewrite Hb1; exact Hwops)) as [evs [r2 [E2 [HI2 [Hl2 [Hb2 [Htr [Hfin Hops]]]]]]]].
     unfold run_now in *. cbn [run]. unfold step_now in E1. rewrite E1. cbn [bind]. rewrite E2. cbn [bind].
     eexists. exists r2. split; [reflexivity|]. split; [exact HI2|]. split; [congruence|]. split; [congruence|].
-    cbn [trace_ok final_pos map e_op e_win]. rewrite <- Hsp. rewrite <- Hl1.
+    cbn [trace_ok final_pos map e_op e_win]. rewrite Hl1 in Htr. rewrite <- Hsp.
     split; [split; [exact Hev|exact Htr]|]. split; [exact Hfin|]. f_equal. exact Hops.
 Qed.
+
+(* ------------------------------------------------------------------ from new() *)
+Lemma op_wf_cap c1 c2 o : c1 = c2 -> op_wf c1 o -> op_wf c2 o.
+Proof. intros ->. auto. Qed.
+
+Theorem reader_refines_stream data sched capacity low ops :
+  0 < low -> low + CACHE_LINE_SIZE <= capacity -> capacity <= usizemax -> nlen data <= usizemax ->
+  Forall (op_wf capacity) ops ->
+  exists r0 evs r', new_reader {| s_rest := data; s_sched := sched |} capacity low = Ok r0 /\
+                    run_now r0 ops = Ok (evs, r') /\ map e_op evs = ops /\
+                    trace_ok data low 0 0 evs /\ stream_pos r' = final_pos 0 0 evs.
+Proof.
+  intros Hl Hc Hu Hd Hwf.
+  destruct (new_reader_inv data sched capacity low Hl Hc Hu Hd) as [r0 [E0 [HI0 [Hsp0 [Hw0 [Hl0 Hb0]]]]]].
+  destruct (run_spec data ops r0 HI0 ltac:(rewrite Hb0; exact Hwf)) as [evs [r' [E [HI' [_ [_ [Htr [Hfin Hops]]]]]]]].
+  rewrite Hl0, Hsp0, Hw0 in *. cbn [nlen length N.of_nat] in *.
+  exists r0, evs, r'. repeat split; assumption.
+Qed.
+
+Lemma reachable_inv data sched capacity low r :
+  capacity <= usizemax -> nlen data <= usizemax ->
+  Reachable data sched capacity low r -> Inv data r /\ r_low r = low /\ nlen (r_buf r) = capacity.
+Proof.
+  intros Hu Hd [r0 [ops [evs [E0 [Hwf Er]]]]].
+  assert (Hside : 0 < low /\ low + CACHE_LINE_SIZE <= capacity).
+  { unfold new_reader, add_chk in E0.
+    destruct (low + CACHE_LINE_SIZE <=? usizemax); [|discriminate]. cbn [bind] in E0.
+    destruct (low + CACHE_LINE_SIZE <=? capacity) eqn:E1; [|discriminate].
+    destruct (0 <? low) eqn:E2; [|discriminate].
+    apply N.leb_le in E1. apply N.ltb_lt in E2. split; assumption. }
+  destruct Hside as [Hl Hc].
+  destruct (new_reader_inv data sched capacity low Hl Hc Hu Hd) as [r0' [E0' [HI0 [_ [_ [Hl0 Hb0]]]]]].
+  rewrite E0 in E0'. inversion E0'; subst r0'.
+  destruct (run_spec data ops r0 HI0 ltac:(rewrite Hb0; exact Hwf)) as [evs' [r' [E [HI' [Hl' [Hb' _]]]]]].
+  rewrite Er in E. inversion E; subst. split; [exact HI'|]. split; congruence.
+Qed.
+
+(* the bytes handed out (consumed parts of the windows shown, results of read) are the source's bytes from the
+   start position on, once and in order *)
+Lemma delivered_prefix S low : forall evs P B win,
+  trace_ok S low P B evs -> (forall e, In e evs -> is_seek (e_op e) = false) ->
+  slice_of S P win -> nlen win = B ->
+  P <= final_pos P B evs /\ delivered win evs = ntake (final_pos P B evs - P) (ndrop P S).
+Proof.
+  induction evs as [|e evs IH]; intros P B win Htr Hns Hsl Hwb.
+  - cbn. split; [lia|]. rewrite N.sub_diag. reflexivity.
+  - cbn [trace_ok] in Htr. destruct Htr as [Hev Htr].
+    assert (Hns' : forall e', In e' evs -> is_seek (e_op e') = false) by (intros e' H; apply Hns; right; exact H).
+    pose proof (Hns e (or_introl eq_refl)) as Hne.
+    unfold ev_ok in Hev. destruct Hev as [Hsl' Hev].
+    destruct (IH (next_pos P B e) (nlen (e_win e)) (e_win e) Htr Hns' Hsl' eq_refl) as [Hle Hd].
+    cbn [final_pos delivered]. rewrite Hd.
+    assert (Hgen : forall a front, next_pos P B e = P + a -> front = ntake a (ndrop P S) ->
+              P <= final_pos (next_pos P B e) (nlen (e_win e)) evs /\
+              front ++ ntake (final_pos (next_pos P B e) (nlen (e_win e)) evs - next_pos P B e) (ndrop (next_pos P B e) S) =
+              ntake (final_pos (next_pos P B e) (nlen (e_win e)) evs - P) (ndrop P S)).
+    { intros a front Hnp Hfr. rewrite Hnp in *. split; [lia|]. subst front.
+      rewrite <- (ndrop_ndrop a P S). rewrite ntake_split. f_equal. lia. }
+    destruct Hsl as [Hwin _].
+    destruct (e_op e) eqn:Eo; destruct (e_out e) eqn:Eu; try contradiction; try discriminate;
+      unfold next_pos in *; rewrite Eo, Eu in *.
+    + (* fill *) apply (Hgen 0 []); [lia|reflexivity].
+    + (* consume *) apply (Hgen (N.min n B)); [reflexivity|].
+      rewrite Hwin, Hwb, ntake_ntake. reflexivity.
+    + (* read *) destruct Hev as [Hbs _]. apply (Hgen (nlen bs)); [reflexivity|exact Hbs].
+Qed.
+
+Theorem delivered_once_in_order data sched capacity low ops :
+  0 < low -> low + CACHE_LINE_SIZE <= capacity -> capacity <= usizemax -> nlen data <= usizemax ->
+  Forall (op_wf capacity) ops -> (forall o, In o ops -> is_seek o = false) ->
+  exists r0 evs r', new_reader {| s_rest := data; s_sched := sched |} capacity low = Ok r0 /\
+                    run_now r0 ops = Ok (evs, r') /\
+                    delivered [] evs = ntake (stream_pos r') data.
+Proof.
+  intros Hl Hc Hu Hd Hwf Hns.
+  destruct (reader_refines_stream data sched capacity low ops Hl Hc Hu Hd Hwf) as [r0 [evs [r' [E0 [Er [Hops [Htr Hfin]]]]]]].
+  exists r0, evs, r'. split; [exact E0|]. split; [exact Er|].
+  destruct (delivered_prefix data low evs 0 0 [] Htr) as [_ Hd'].
+  - intros e He. apply Hns. rewrite <- Hops. apply in_map. exact He.
+  - split; [reflexivity|cbn; lia].
+  - reflexivity.
+  - rewrite Hd', Hfin, N.sub_0_r. reflexivity.
+Qed.
+
+(* ------------------------------------------------------------------ clauses for a single reachable state *)
+Section Reach.
+  Variables (data sched : list N) (capacity low : N) (r : reader).
+  Hypothesis Hu : capacity <= usizemax.
+  Hypothesis Hd : nlen data <= usizemax.
+  Hypothesis HR : Reachable data sched capacity low r.
+
+  Lemma reach_fill :
+    exists r', fill_buf_now r = Ok r' /\ Reachable data sched capacity low r' /\
+               stream_pos r' = stream_pos r /\ slice_of data (stream_pos r) (window r') /\
+               nlen (window r) <= nlen (window r') /\
+               (low <= nlen (window r') \/ stream_pos r + nlen (window r') = nlen data).
+  Proof.
+    destruct (reachable_inv data sched capacity low r Hu Hd HR) as [HI [Hl Hb]].
+    destruct (step_spec data r OFill HI I) as [x [r1 [E1 [HI1 [Hl1 [Hb1 [Hev Hsp]]]]]]].
+    unfold step_now, step in E1.
+    destruct (fill_buf compact r) as [r1'| |] eqn:Ef; cbn [bind] in E1; try discriminate.
+    inversion E1; subst x r1'. clear E1.
+    exists r1. split; [exact Ef|].
+    cbn zeta in Hev, Hsp. unfold ev_ok, next_pos in Hev, Hsp. cbn [e_op e_out e_win] in Hev, Hsp.
+    destruct Hev as [Hsl [_ [Hmono Hla]]].
+    split.
+    { destruct HR as [r0 [ops [evs [E0 [Hwf Er]]]]].
+      exists r0, (ops ++ [OFill]), (evs ++ [{| e_op := OFill; e_out := RFill (window r1); e_win := window r1 |}]).
+      split; [exact E0|]. split; [apply Forall_app; split; [exact Hwf|constructor; [exact I|constructor]]|].
+      clear - Er Ef. revert r0 evs Er. induction ops as [|o ops IH]; intros r0 evs Er.
+      - cbn in Er. inversion Er; subst. cbn [app run_now run step]. rewrite Ef. reflexivity.
+      - unfold run_now in *. cbn [app run] in *.
+        destruct (step compact r0 o) as [[x r0']| |]; cbn [bind] in *; try discriminate.
+        destruct (run compact r0' ops) as [[evs' r2]| |] eqn:E2; cbn [bind] in *; try discriminate.
+        inversion Er; subst. rewrite (IH r0' evs' eq_refl). reflexivity. }
+    rewrite Hl in Hla. repeat split; auto.
+  Qed.
+
+  Lemma reach_no_early_eof r' :
+    fill_buf_now r = Ok r' -> window r' = [] -> stream_pos r = nlen data.
+  Proof.
+    intros Ef Hw. destruct reach_fill as [r1 [E1 [_ [_ [_ [_ Hla]]]]]].
+    rewrite Ef in E1. inversion E1; subst r1. rewrite Hw in Hla. cbn in Hla.
+    destruct (reachable_inv data sched capacity low r Hu Hd HR) as [HI [Hl _]].
+    pose proof (inv_low data r HI). lia.
+  Qed.
+
+  Lemma reach_read k :
+    exists bs r', read compact r k = Ok (bs, r') /\ bs = ntake (nlen bs) (ndrop (stream_pos r) data) /\
+                  stream_pos r' = stream_pos r + nlen bs /\ nlen bs <= k /\
+                  N.min k (N.min low (nlen data - stream_pos r)) <= nlen bs.
+  Proof.
+    destruct (reachable_inv data sched capacity low r Hu Hd HR) as [HI [Hl Hb]].
+    destruct (read_spec data r k HI) as [bs [r1 [E1 [_ [Hbs [Hsp [Hk [Hmin _]]]]]]]].
+    exists bs, r1. rewrite Hl in Hmin. repeat split; assumption.
+  Qed.
+
+  Lemma reach_seek n :
+    exists x r', seek_start compact r n = Ok (x, r') /\
+                 match x with
+                 | Some m => m = n /\ stream_pos r' = n /\ slice_of data n (window r') /\
+                             (forall k, exists bs r2, read compact r' k = Ok (bs, r2) /\
+                                                      bs = ntake (nlen bs) (ndrop n data) /\
+                                                      N.min k (N.min low (nlen data - n)) <= nlen bs)
+                 | None => ~ (0 < nlen (window r) /\ stream_pos r <= n <= stream_pos r + nlen (window r))
+                 end.
+  Proof.
+    destruct (reachable_inv data sched capacity low r Hu Hd HR) as [HI [Hl Hb]].
+    destruct (seek_start_spec data r n HI) as [x [r1 [E1 [HI1 [Hl1 [_ Hx]]]]]].
+    exists x, r1. split; [exact E1|]. destruct x as [m|].
+    - destruct Hx as [Hm Hsp]. split; [exact Hm|]. split; [exact Hsp|].
+      split; [rewrite <- Hsp; apply window_slice; exact HI1|].
+      intros k. destruct (read_spec data r1 k HI1) as [bs [r2 [E2 [_ [Hbs [_ [_ [Hmin _]]]]]]]].
+      exists bs, r2. rewrite Hsp in *. rewrite Hl1, Hl in Hmin. repeat split; assumption.
+    - destruct Hx as [_ Hno]. rewrite (window_len data r HI). exact Hno.
+  Qed.
+End Reach.
